@@ -89,6 +89,36 @@ theorem exact_reading_is_used {m n : Nat} (filtering : Option Rat) (H : QMat m n
   have hr : out.rejected = false := by rw [hd, hz, nis_zero, zero_never_discarded]
   exact ⟨hr, C05.fixed_point filtering H P Q Sinv x z out h, (hacc hr).2, by rw [hi, hz]⟩
 
+/-- **Monotone in the reading's surprise**: once a normalised innovation squared is discarded, every larger one is discarded too
+(same threshold, same number of readings) - the decision has no "window" in which a worse reading slips through. -/
+theorem discard_mono_nis (k ν ν' : ℚ) (m : ℕ) (hk : 0 ≤ k) (hν : ν ≤ ν') (h : discard (some k) ν m = true) :
+    discard (some k) ν' m = true := by
+  rw [discard_iff k ν m hk] at h
+  rw [discard_iff k ν' m hk]
+  have : (ν : ℝ) ≤ (ν' : ℝ) := by exact_mod_cast hν
+  linarith
+
+/-- **Antitone in the threshold**: whatever a looser (larger) editing threshold discards, a tighter one discards as well. -/
+theorem discard_antitone_threshold (k k' ν : ℚ) (m : ℕ) (hk : 0 ≤ k) (hkk : k ≤ k') (h : discard (some k') ν m = true) :
+    discard (some k) ν m = true := by
+  rw [discard_iff k' ν m (le_trans hk hkk)] at h
+  rw [discard_iff k ν m hk]
+  have h1 : (k : ℝ) ≤ (k' : ℝ) := by exact_mod_cast hkk
+  have h2 : (0 : ℝ) ≤ Real.sqrt (2 * (m : ℝ)) := Real.sqrt_nonneg _
+  nlinarith [mul_le_mul_of_nonneg_right h1 h2]
+
+/-- a normalised innovation squared that does not exceed the number of readings (its expectation) is never discarded,
+whatever the threshold - even a zero or negative one -/
+theorem at_most_dof_never (filtering : Option Rat) (ν : ℚ) (m : ℕ) (h : ν ≤ m) : discard filtering ν m = false := by
+  cases filtering with
+  | none => rfl
+  | some k =>
+    simp only [discard, exceeds, Bool.and_eq_false_iff, decide_eq_false_iff_not, not_lt]
+    left; linarith
+
+/-- non-vacuity of the two monotonicity statements: k = 1, m = 2: limit 4; k = 2: limit 6 -/
+example : discard (some 1) 5 2 = true ∧ discard (some 2) 5 2 = false ∧ discard (some 2) 7 2 = true := by decide +kernel
+
 /-- NIS is non-negative for a positive semi-definite inverse innovation covariance -/
 theorem nis_nonneg {m : Nat} (y : Fin m → ℚ) (Si : QMat m m) (h : Si.toMatrix.PosSemidef) : 0 ≤ nis y Si := by
   rw [nis_eq]; exact Mat.nis_nonneg _ h y
